@@ -65,8 +65,13 @@ def plan(tier, seed):
         for tname, ops in SHARP_T.items():
             cases.append({"mode": "gt", "gname": "bfs", "rules": c["rules"], "T": fsm.ops_json(ops), "tname": tname})
         cases.append({"mode": "acc", "rules": c["rules"]})
+        # symbols that are falsy Python values (0, as in byte-level grammars): the same spaces with a->0, b->1
+        cases.append({"mode": "acc", "rules": c["rules"], "ints": True})
+        for tname in ("identity", "eps-output", "eps-input-loop", "swap-then-copy"):
+            cases.append({"mode": "gt", "gname": "bfs", "rules": c["rules"], "T": fsm.ops_json(SHARP_T[tname]), "tname": tname, "ints": True})
     for gname in SHARP_G:
         cases.append({"mode": "acc", "rules": [[h, list(b)] for h, b in sharp[gname]]})
+        cases.append({"mode": "acc", "rules": [[h, list(b)] for h, b in sharp[gname]], "ints": True})
     return {
         "cases": cases,
         "states": len(t1) + len(t2) + gs + len(SHARP_G) + len(SHARP_T),
@@ -105,11 +110,24 @@ def eval_grammar(g, y):
         return "reference evaluation of the composed grammar does not stabilise"
 
 
+IMAP = {"a": 0, "b": 1}
+
+
+def to_ints(rules, V):
+    m = dict(IMAP)
+    for k, t in enumerate(sorted(set(V) - set(IMAP)), start=2):
+        m[t] = k
+    return [(h, tuple(m.get(y, y) for y in b)) for h, b in rules], {m[t] for t in V}, m
+
+
 def run_gt(case):
     p = cfgp()
     rules = case_rules(case)
     V = case_terms(case)
     ops = fsm.ops_from_json(case["T"])
+    if case.get("ints"):
+        rules, V, m = to_ints(rules, V)
+        ops = tuple(o if o[0] != "A" else ("A", o[1], (m.get(o[2][0], o[2][0]), m.get(o[2][1], o[2][1])), o[3]) for o in ops)
     tabG = enum_derivs(rules, "S", V, Poly.D)
     WT = fsm.poly_weights(len(ops), offset=VOFF)
     tabT = paths(fsm.data(ops, WT), fst=True)
@@ -126,7 +144,7 @@ def run_gt(case):
     fails = []
     evals = 0
     nz = 0
-    outs = sorted({b for o in ops if o[0] == "A" for b in (o[2][1],) if b != EPS} | {"a"})
+    outs = sorted({b for o in ops if o[0] == "A" for b in (o[2][1],) if b != EPS} | ({0} if case.get("ints") else {"a"}), key=repr)
     for order in ("cfg@fst", "fst.T@cfg"):
         g = gram.build(rules, Poly, gram.poly_weights(len(rules)), V=V)
         t = fsm.build(FST, Poly, ops, WT)
@@ -158,14 +176,18 @@ def run_gt(case):
 def run_acc(case):
     rules = case_rules(case)
     V = case_terms(case)
+    A, B = "a", "b"
+    if case.get("ints"):
+        rules, V, _m = to_ints(rules, V)
+        A, B = 0, 1
     tabG = enum_derivs(rules, "S", V, Poly.D)
-    inp0 = {"rules": case["rules"]}
+    inp0 = {"rules": case["rules"], "ints": bool(case.get("ints"))}
     fails = []
     evals = 0
     W = gram.poly_weights(len(rules))
-    for x in strings_upto(sorted(V), 2):
+    for x in strings_upto(sorted(V, key=repr), 2):
         want = tabG.get(x, Poly.zero)
-        for form in (x, "".join(x)):
+        for form in ((x, "".join(x)) if not case.get("ints") else (x,)):
             g = gram.build(rules, Poly, W, V=V)
             comp = _call(lambda: g @ form)
             have = comp if isinstance(comp, str) else _call(comp.treesum)
@@ -173,7 +195,7 @@ def run_acc(case):
             if not (isinstance(have, Poly) and have == want):
                 fails.append(_fail("treesum(cfg @ x) == cfg(x)", dict(inp0, x=list(x), form=type(form).__name__), have, want))
             if not isinstance(comp, str):
-                for y in strings_upto(sorted(V), 2):
+                for y in strings_upto(sorted(V, key=repr), 2):
                     hv = eval_grammar(comp, y)
                     evals += 1
                     w = want if y == x else Poly.zero
@@ -181,12 +203,12 @@ def run_acc(case):
                         fails.append(_fail("(cfg @ x)(y) is the pointwise product", dict(inp0, x=list(x), y=list(y)), hv, w))
                         break
     # weighted acceptor: pointwise product
-    acc_ops = (("I", 0), ("F", 0), ("F", 1), ("A", 0, "a", 1), ("A", 1, "b", 0), ("A", 1, EPS, 1), ("A", 0, "a", 0))
+    acc_ops = (("I", 0), ("F", 0), ("F", 1), ("A", 0, A, 1), ("A", 1, B, 0), ("A", 1, EPS, 1), ("A", 0, A, 0))
     WA = fsm.poly_weights(len(acc_ops), offset=VOFF)
     tabA = paths(fsm.data(acc_ops, WA))
     g = gram.build(rules, Poly, W, V=V)
     comp = _call(lambda: g @ fsm.build(base.WFSA, Poly, acc_ops, WA))
-    for y in strings_upto(sorted(V), 3 if len(V) <= 2 else 2):
+    for y in strings_upto(sorted(V, key=repr), 3 if len(V) <= 2 else 2):
         w = tabG.get(y, Poly.zero) * tabA.get(y, Poly.zero)
         hv = eval_grammar(comp, y)
         evals += 1
@@ -197,7 +219,7 @@ def run_acc(case):
     for n in (0, 1, 2, 3):
         g = gram.build(rules, Poly, W, V=V)
         tr = _call(g.truncate_length, n)
-        for y in strings_upto(sorted(V), 4 if len(V) <= 2 else 3):
+        for y in strings_upto(sorted(V, key=repr), 4 if len(V) <= 2 else 3):
             w = tabG.get(y, Poly.zero) if len(y) <= n else Poly.zero
             hv = eval_grammar(tr, y)
             evals += 1
